@@ -38,7 +38,7 @@ prop("C29",
 
 
 prop("C22",
-     units=["colcodec", "refarms", "quoting"],
+     units=["colcodec", "refarms", "quoting", "lexnum"],
      level="proof",
      claim="number_to_column / column_to_number are mutually inverse bijections between [1,16384] and the letter strings A..XFD (first sentence of the statement)",
      assumptions=["units/std_str.rs: char::is_ascii_uppercase, String::insert behave as documented", "vstd's model of str::chars / String views"],
